@@ -1,37 +1,43 @@
 ------------------------------ MODULE KRecycleMC ------------------------------
 (* Exhaustive exploration of the delete / revive / purge transcription (L2) against the lifecycle
-   property (L1) with scaled constants (RMax, CMax in model time units): entry 1 user (member of
-   group 2, target of dependent 3), 2 group, 3 dependent.  Every edit happens dt in 1..2 after the
+   property (L1) with scaled constants (RMax, CMax in model time units): entries 1 and 4 users (both members of
+   group 2; 1 is the target of dependent 3), 2 group, 3 dependent. Delete and revive are ONE operation over a
+   set of 1..2 entries (argument = set code).  Every edit happens dt in 1..2 after the
    previous one (dt >= 1: one transaction per simulated second, so whole-second arithmetic is exact).  L1 is evaluated on every transition (ok' records it); CEX / BEH as in KRefintMC,
    each edit is <<kind, arg, dt>>. *)
 EXTENDS KRecycle, Sequences
 CONSTANTS MaxLen, Sample, TMax
-I3 == 1..3
+I3 == 1..4
 VARIABLES s, hs, h, ok
-Nm(x) == <<"n1", "n2", "">>[x]
+Nm(x) == <<"n1", "n2", "", "n4">>[x]
 Init == /\ s = [ids |-> I3, grp |-> {2}, lv |-> [x \in I3 |-> "live"], now |-> 0,
                 lm |-> [x \in I3 |-> 0], at |-> [x \in I3 |-> 0],
                 refers |-> [x \in I3 |-> IF x = 3 THEN {1} ELSE {}], casc |-> [x \in I3 |-> {}],
-                member |-> [x \in I3 |-> IF x = 2 THEN {1} ELSE {}], rdmo |-> [x \in I3 |-> {}],
+                member |-> [x \in I3 |-> IF x = 2 THEN {1, 4} ELSE {}], rdmo |-> [x \in I3 |-> {}],
                 name |-> [x \in I3 |-> Nm(x)], dmo |-> [x \in I3 |-> {}]]
         /\ hs = [del |-> [x \in I3 |-> 0], ts |-> [x \in I3 |-> 0], want |-> [x \in I3 |-> {}], dep |-> [x \in I3 |-> {}], rf |-> [x \in I3 |-> {}], dm |-> [x \in I3 |-> {}]]
         /\ h = <<>> /\ ok = TRUE
 \* L1 on one transition (operation kind k on x with result res)
-L1(t, k, x, res) ==
+L1(t, k, X, res) ==
   /\ LifecycleOk(s, t, hs)
-  /\ (k = 2 /\ s.lv[x] = "recycled" /\ res = "ok") => ReviveOk(s, t, hs, x)
-  /\ (k = 2 /\ s.lv[x] = "recycled" /\ Unobstructed(s, hs, x)) => res = "ok"
-Step(k, a, dt, r) == /\ s' = r.st /\ h' = h \o <<k, a, dt>> /\ hs' = Hist(hs, s, r.st) /\ ok' = L1(r.st, k, a, r.res)
+  /\ (k = 2 /\ res = "ok") => ReviveOkSet(s, t, hs, X)
+  /\ (k = 2 /\ Unobstructed(s, hs, X)) => res = "ok"
+SetCode(M) == LET RECURSIVE Sum(_)
+                  Sum(P) == IF P = {} THEN 0 ELSE LET p == CHOOSE q \in P : TRUE IN 2 ^ (p - 1) + Sum(P \ {p})
+              IN  Sum(M)
+\* X: the set of entries the edit names (delete / revive work on SETS: one operation)
+Step(k, X, dt, r) == /\ s' = r.st /\ h' = h \o <<k, SetCode(X), dt>> /\ hs' = Hist(hs, s, r.st) /\ ok' = L1(r.st, k, X, r.res)
 Next == /\ ok /\ Len(h) < 3 * MaxLen
         /\ \E dt \in 1..2 : LET now == s.now + dt IN now <= TMax /\
-           \/ \E x \in I3 : s.lv[x] = "live" /\ Step(1, x, dt, Delete(s, {x}, now))
-           \/ \E x \in I3 : s.lv[x] \in {"recycled", "tombstone"} /\ Step(2, x, dt, Revive(s, x, now))
-           \/ Step(3, 0, dt, R(PurgeRecycled(s, now), "ok"))
-           \/ Step(4, 0, dt, R(PurgeTombstones(s, now), "ok"))
+           \/ \E D \in SUBSET {x \in I3 : s.lv[x] = "live"} : Cardinality(D) \in {1, 2} /\ Step(1, D, dt, Delete(s, D, now))
+           \/ \E X \in SUBSET {x \in I3 : s.lv[x] = "recycled"} : Cardinality(X) \in {1, 2} /\ Step(2, X, dt, Revive(s, X, now))
+           \/ \E x \in I3 : s.lv[x] = "tombstone" /\ Step(2, {x}, dt, Revive(s, {x}, now))
+           \/ Step(3, {}, dt, R(PurgeRecycled(s, now), "ok"))
+           \/ Step(4, {}, dt, R(PurgeTombstones(s, now), "ok"))
            \/ s.lv[2] = "live" /\ s.lv[1] = "live" /\ 1 \in s.member[2]
-                /\ Step(5, 0, dt, R([s EXCEPT !.now = now, !.member[2] = {}, !.lm[2] = now], "ok"))
+                /\ Step(5, {}, dt, R([s EXCEPT !.now = now, !.member[2] = {}, !.lm[2] = now], "ok"))
            \/ s.lv[2] = "live" /\ s.lv[1] = "live" /\ 1 \notin s.member[2]
-                /\ Step(6, 0, dt, R([s EXCEPT !.now = now, !.member[2] = {1}, !.lm[2] = now], "ok"))
+                /\ Step(6, {}, dt, R([s EXCEPT !.now = now, !.member[2] = {1}, !.lm[2] = now], "ok"))
 Spec == Init /\ [][Next]_<<s, hs, h, ok>>
 Pad(q) == q \o [i \in 1..(18 - Len(q)) |-> 0]
 Tup(tag) == LET p == Pad(h) IN
